@@ -1,1 +1,2 @@
 import GffGen.Bins
+import GffGen.Crit
